@@ -438,6 +438,10 @@ class Pred:
                     return True
                 continue
             p = as_pred(p)
+            if isinstance(p, (bool, np.bool_)):       # a constant array such as zeros((), bool)
+                if p:
+                    return True
+                continue
             flat.extend(p.arg if p.kind == 'or' else [p])
         if not flat:
             return False
@@ -453,6 +457,10 @@ class Pred:
                     return False
                 continue
             p = as_pred(p)
+            if isinstance(p, (bool, np.bool_)):
+                if not p:
+                    return False
+                continue
             if p.kind == 'and':
                 flat.extend(p.arg)
             else:
